@@ -158,6 +158,7 @@ func Harness_NS_Feasible() {
 	g, nodes := vhGraph()
 	for _, e := range g.Edges {
 		e.Delta = vhInt("delta", 0, 2)
+		e.IsReversed = vhBool("rev") // any edge may be a reversed one; the layerer must not care
 	}
 	execNetworkSimplex(g, graph.Params{NetworkSimplexThoroughness: 28, NetworkSimplexBalance: graph.OptionNsBalanceV})
 	vhReach("returned")
@@ -200,5 +201,44 @@ func Harness_NS_Optimal() {
 	if feasible {
 		vhReach("alternative-feasible")
 		vhAssert(totalAlt >= total, "total-edge-length-is-minimal")
+	}
+}
+
+// Harness_LP (C11 / C03 kernel): the real LongestPath.Process on a connected DAG cube whose edges
+// carry SOLVER-CHOSEN IsReversed flags (after cycle breaking any edge may be a reversed one; the
+// layerer must treat the stored orientation only): every edge spans >= 1 layer, the number of
+// layers is the number of nodes on the longest path and every node sits height(n)-1 layers above
+// the bottom layer (height by relaxation).
+func Harness_LP() {
+	g, nodes := vhGraph()
+	for _, e := range g.Edges {
+		e.IsReversed = vhBool("rev")
+	}
+	LongestPath.Process(g, graph.Params{})
+	vhReach("layered")
+	n := len(nodes)
+	height := make([]int, n)
+	for i := range height {
+		height[i] = 1
+	}
+	for round := 0; round < n; round++ {
+		for _, e := range g.Edges {
+			a, b := vhNodeIdx(nodes, e.From), vhNodeIdx(nodes, e.To)
+			if height[b]+1 > height[a] {
+				height[a] = height[b] + 1
+			}
+		}
+	}
+	maxh := 0
+	for i := range nodes {
+		maxh = max(maxh, height[i])
+	}
+	vhAssert(len(g.Layers) == maxh, "number-of-layers-equals-longest-path")
+	for i, nd := range nodes {
+		vhObserveInt("layer", nd.Layer)
+		vhAssert(nd.Layer == maxh-height[i], "node-sits-height-above-bottom-layer")
+	}
+	for _, e := range g.Edges {
+		vhAssert(e.To.Layer-e.From.Layer >= 1, "every-edge-spans-at-least-one-layer")
 	}
 }
